@@ -38,12 +38,8 @@ theorem ack_tk (pick : Pick) {s : State} (h : TK s) (ok : Bool) : TK (s.ack pick
     have r : Res (⟨peer, maxRetries, builders, nextTopic, token, done, sender, .exiting, closedStreams, waiters,
       nextTicket, topics, pubClosed, alloc, log⟩ : State)
       ({ ((State.allocStep pick (⟨peer, maxRetries, builders, nextTopic, token, done, sender, .exiting, closedStreams, waiters,
-      nextTicket, topics, pubClosed, alloc, log⟩ : State) (.releasePeer peer)).1.pubShutdown.emit [Event.exitCallback]) with pc := .exited } : State) := by
-      have f1 := pubShutdown_frame (State.allocStep pick (⟨peer, maxRetries, builders, nextTopic, token, done, sender, .exiting, closedStreams, waiters,
-        nextTicket, topics, pubClosed, alloc, log⟩ : State) (.releasePeer peer)).1
-      have f2 := emit_frame (State.allocStep pick (⟨peer, maxRetries, builders, nextTopic, token, done, sender, .exiting, closedStreams, waiters,
-        nextTicket, topics, pubClosed, alloc, log⟩ : State) (.releasePeer peer)).1.pubShutdown [Event.exitCallback]
-      exact Res.fields (f2.builders.trans f1.builders) (f2.token.trans f1.token) (f2.maxRetries.trans f1.maxRetries)
+      nextTicket, topics, pubClosed, alloc, log⟩ : State) (.releasePeer peer)).1.emit [Event.exitCallback]) with pc := .exited } : State) := by
+      exact Res.fields rfl rfl rfl
     exact ⟨r.ti hti, trivial⟩
   | opening m r =>
     cases r with
@@ -129,12 +125,10 @@ theorem run_tk (pick : Pick) {s : State} (h : TK s) (pw : Bool) : TK (s.run pick
             · show (if s1.sender = true then s1.emit [Event.senderClosed] else s1).maxRetries = _
               split <;> rfl
           exact ⟨r.ti h1, trivial⟩
-        split
-        · apply key
-          intro ⟨x, hx, _⟩
-          rw [drain_builders_nil pick builders.length _ (Nat.le_refl _)] at hx
-          cases hx
-        · exact key _ hti
+        apply key
+        intro ⟨x, hx, _⟩
+        rw [drain_builders_nil pick builders.length _ (Nat.le_refl _)] at hx
+        cases hx
       · exact ⟨hti, hok⟩
   | opening m r => exact ⟨hti, hok⟩
   | sending m i => exact ⟨hti, hok⟩
@@ -142,22 +136,95 @@ theorem run_tk (pick : Pick) {s : State} (h : TK s) (pw : Bool) : TK (s.run pick
   | exiting => exact ⟨hti, hok⟩
   | exited => exact ⟨hti, hok⟩
 
+/-- the drain loop keeps the signal invariant -/
+theorem drain_ti (pick : Pick) : ∀ (fuel : Nat) (s : State), TI s → TI (State.drain pick fuel s)
+  | 0, _, h => h
+  | fuel + 1, s, h => by
+    obtain ⟨e1, e2⟩ := extract_shape s
+    unfold State.drain
+    cases he : s.extract with
+    | mk s' om =>
+      cases om with
+      | none =>
+        obtain ⟨a1, _⟩ := e1 s' he
+        simp only
+        intro ⟨x, hx, _⟩; rw [a1] at hx; cases hx
+      | some m =>
+        obtain ⟨pre, b, _, _, _, _, htk, _⟩ := e2 s' m he
+        have hti1 : TI s' := by
+          intro ⟨x, hx, _⟩
+          rw [htk]
+          cases hr : s'.builders with
+          | nil => rw [hr] at hx; cases hx
+          | cons _ _ => simp
+        simp only
+        apply drain_ti pick fuel
+        have r := publishError_res pick s' m
+        have f := closeTopic_frame (s'.publishError pick m) m.topic
+        exact (r.trans (Res.fields f.builders f.token f.maxRetries)).ti hti1
+
+/-- what callers' steps keep of `TK`, on any queue -/
+structure KeepsT (s s' : State) : Prop where
+  ti : TI s → TI s'
+  maxRetries : s'.maxRetries = s.maxRetries
+  pc : s'.pc = s.pc
+
+theorem KeepsT.trans {a b c : State} (h1 : KeepsT a b) (h2 : KeepsT b c) : KeepsT a c :=
+  ⟨fun t => h2.ti (h1.ti t), h2.maxRetries.trans h1.maxRetries, h2.pc.trans h1.pc⟩
+
+theorem KeepsT.fields {s s' : State} (hb : s'.builders = s.builders) (ht : s'.token = s.token)
+    (hm : s'.maxRetries = s.maxRetries) (hp : s'.pc = s.pc) : KeepsT s s' :=
+  ⟨(Keeps.fields hb ht hm hp).ti, hm, hp⟩
+
+theorem Keeps.t {s s' : State} (k : Keeps s s') : KeepsT s s' := ⟨k.ti, k.maxRetries, k.pc⟩
+
+theorem KeepsT.tk {s s' : State} (k : KeepsT s s') (h : TK s) : TK s' :=
+  ⟨k.ti h.1, by unfold PcOK; rw [k.pc, k.maxRetries]; exact h.2⟩
+
+theorem buildMsg_keepsT (pick : Pick) (s : State) (ticket : Nat) (tx : Tx) (size : Nat) :
+    KeepsT s (s.buildMsg pick ticket tx size) := by
+  have k := (buildMessage_keeps pick s ticket tx size).t
+  unfold State.buildMsg
+  split
+  · obtain ⟨d1, _, d3, _⟩ := drain_shape pick 1 (s.buildMessage pick ticket tx size)
+    exact k.trans ⟨drain_ti pick 1 _, d3, d1⟩
+  · exact k
+
+theorem buildWith_keepsT (pick : Pick) (s : State) (tx : Tx) (size : Nat) : KeepsT s (buildWith pick s tx size) := by
+  unfold buildWith
+  simp only
+  have k0 : KeepsT s ({ s with nextTicket := s.nextTicket + 1 } : State) := KeepsT.fields rfl rfl rfl rfl
+  split
+  · exact k0.trans (buildMsg_keepsT _ _ _ _ _)
+  · have k1 := k0.trans (allocStep_keeps pick ({ s with nextTicket := s.nextTicket + 1 } : State) (.alloc s.peer size s.nextTicket)).t
+    split
+    · exact k1.trans (buildMsg_keepsT _ _ _ _ _)
+    · exact k1.trans (KeepsT.fields rfl rfl rfl rfl)
+
 theorem step_tk (pick : Pick) {s : State} (h : TK s) (a : Act) : TK (step pick s a) := by
   cases a with
   | run pw => exact run_tk pick h pw
   | ack ok => exact ack_tk pick h ok
   | build tx =>
-    have k := (caller_keeps pick s (.build tx) (by intro pw h; cases h) (by intro ok h; cases h)).1
-    exact ⟨k.ti h.1, by unfold PcOK; rw [k.pc, k.maxRetries]; exact h.2⟩
+    show TK (s.build pick tx)
+    rw [build_eq]; split
+    · exact h
+    · exact (buildWith_keepsT pick s tx _).tk h
   | wake t =>
-    have k := (caller_keeps pick s (.wake t) (by intro pw h; cases h) (by intro ok h; cases h)).1
-    exact ⟨k.ti h.1, by unfold PcOK; rw [k.pc, k.maxRetries]; exact h.2⟩
+    show TK (s.wake pick t)
+    unfold State.wake
+    split
+    · exact h
+    · next w _ =>
+      simp only
+      have k0 : KeepsT s ({ s with waiters := s.waiters.filter (·.ticket != w.ticket) } : State) := KeepsT.fields rfl rfl rfl rfl
+      split
+      · exact (k0.trans (buildMsg_keepsT _ _ _ _ _)).tk h
+      · exact (k0.trans (KeepsT.fields rfl rfl rfl rfl)).tk h
   | shutdown =>
-    have k := (caller_keeps pick s .shutdown (by intro pw h; cases h) (by intro ok h; cases h)).1
-    exact ⟨k.ti h.1, by unfold PcOK; rw [k.pc, k.maxRetries]; exact h.2⟩
+    exact (KeepsT.fields (s := s) (s' := step pick s .shutdown) rfl rfl rfl rfl).tk h
   | env op =>
-    have k := (caller_keeps pick s (.env op) (by intro pw h; cases h) (by intro ok h; cases h)).1
-    exact ⟨k.ti h.1, by unfold PcOK; rw [k.pc, k.maxRetries]; exact h.2⟩
+    exact (allocStep_keeps pick s op).t.tk h
 
 theorem init_tk (peer mr mt mp : Nat) : TK (init peer mr mt mp) :=
   ⟨by intro ⟨x, hx, _⟩; simp [init] at hx, trivial⟩
